@@ -1,7 +1,7 @@
 """C14 — hazard pointers: nothing is reclaimed while protected; garbage stays bounded (structural part)."""
 from core import deatomic, strip, is_field, order_ge, key_str, key_mentions
 from facts import AnalysisBroken
-from rules import (field_load, check_init, nodeset, callpred, atom_from, reach, ev, Unevaluable, is_full_fence, is_param_load, is_var_load, summary_value)
+from rules import (field_load, check_init, nodeset, callpred, atom_from, reach, ev, Unevaluable, is_full_fence, is_param_load, is_var_load, summary_value, may_flow_from)
 from symword import Machine
 import hazard
 
@@ -45,6 +45,15 @@ def check_node_base(ctx, P):
     else:
         o.check(off == 0, "hazard at offset 0", "`hazard` is at byte offset %s of mpmc_fifo_node_t but the callback releases the hazard pointer itself" % (off // 8 if off is not None else "?"),
                 site=f.loc, construct="hazard member not first")
+
+
+def key_field(f, target):
+    """name of the record field a MemberExpr / store target designates (None for anything else)"""
+    t = strip(target)
+    if t is None or t.k != "MemberExpr":
+        return None
+    k = f.key(t, resolve=False)
+    return k[2] if k and k[0] == "f" else None
 
 
 def run(ctx):
@@ -266,6 +275,51 @@ def run(ctx):
         o.check(bad is None, "sort before search; comparator and search tables", bad, site=sc.loc, construct="scan sort/search")
     if not bs:
         raise AnalysisBroken("hazard_pointer_scan: no search over the collected hazard pointers found")
+
+    o = ctx.ob("scan.private", sc, "the array and the length searched for a retired node are values fixed before the first reclamation callback runs: neither is "
+               "re-read, after a callback, from a field of the record that hazard_pointer_scan itself rewrites",
+               "the callback is user code and may retire nodes (hazard_pointer_free -> a nested hazard_pointer_scan on the same record): the nested scan "
+               "replaces the record's snapshot array, and the outer scan then searches the new array with its old length and misses a hazard that is present")
+    cbs = [n for n in sc.calls() if n.callee is None or not (P.has_fn(n.callee) or n.callee in ("qsort", "bsearch", "malloc", "free", "calloc", "realloc", "__assert_fail", "abort"))]
+    cbs = [n for n in cbs if n.callee is None]
+    searches = sc.calls("binary_search") + sc.calls("bsearch")
+    if not cbs or not searches:
+        raise AnalysisBroken("C14 scan.private: reclamation callback / search call not found in hazard_pointer_scan")
+    ctx.expect_count("reclamation callbacks in scan", len(cbs), 1)
+    written = {key_field(sc, st.target) for st in sc.stores()} - {None}
+    bad = None
+    for b in searches:
+        a = sc.args(b)
+        arr_len = a[:2] if b.callee == "binary_search" else a[1:3]
+        for x in arr_len:
+            def rewritten_after_cb(n):
+                if not (n.k == "ImplicitCastExpr" and n.ck == "LValueToRValue"):
+                    return False
+                m = strip(n)
+                if m is None or m.k != "MemberExpr":
+                    return False
+                fld = key_field(sc, m)
+                return fld in written and any(sc.find_path(c, lambda y, n=n: y is n) is not None for c in cbs)
+            if may_flow_from(sc, x, rewritten_after_cb):
+                bad = bad or ("the search argument `%s` is (re)read from a record field that the scan rewrites, at a point a reclamation callback can precede: a "
+                              "nested scan run by the callback changes it under the outer scan" % x.text, b)
+        # the array itself must not stay reachable from the record while callbacks run: a nested scan would refill the same memory
+        srcs = []
+
+        def source(n):
+            if n.k == "ImplicitCastExpr" and n.ck == "LValueToRValue" and strip(n) is not None and strip(n).k == "MemberExpr" and key_field(sc, strip(n)) in written:
+                srcs.append(n)
+            return False
+        may_flow_from(sc, arr_len[0], source)
+        for n in srcs:
+            fld = key_field(sc, strip(n))
+            resets = nodeset([st.node for st in sc.stores() if key_field(sc, st.target) == fld])
+            for c in cbs:
+                if sc.find_path(n, lambda y, c=c: y is c, barrier=resets) is not None:
+                    bad = bad or ("the searched array is the one the record's `%s` still points to while the reclamation callbacks run: a nested scan refills "
+                                  "that very memory under the outer scan (and both later free it)" % fld, b)
+    o.check(bad is None, "%d search call(s), %d callback site(s); scan rewrites record fields %s" % (len(searches), len(cbs), sorted(written)),
+            bad[0] if bad else None, site=bad[1] if bad else None, construct="scan snapshot shared with a nested scan")
 
     o = ctx.ob("scan.decide", sc, "a retired node is passed to its gc function exactly when the search did not find it; otherwise it is re-linked into the "
                "retired list and counted; the list and count are reset before the pass",
